@@ -197,7 +197,7 @@ package v2
 //@   csensures[rejected_entry_not_buffered] (len(entry.Key) < 1 || len(entry.Key) > 65535 || len(entry.Data) > 2147483647) ==> len(fw.buffer.entries) == old(len(fw.buffer.entries)) && fw.buffer.currentSize == old(fw.buffer.currentSize)
 
 //@ func (*FileWriter).flushLocked(fw) (err)
-//@   property C01 C02 C25
+//@   property C01 C02 C25 C29
 //@   nopanic
 //@   overflow: assumed
 //@   holds fw.mu
